@@ -51,6 +51,19 @@ def _hash_group(ctx, styles, what):
                     ctx.violation("eq-but-dict-miss:" + name, dict(what, s1=str(ref), s2=str(s)))
 
 
+def _used(style, rng):
+    """A source style that has been around: its text form / hash / ANSI codes may already have been asked for
+    (they are computed lazily and kept on the object) before something is derived from it."""
+    r = rng.random()
+    if r < 0.4:
+        str(style)
+    if 0.2 < r < 0.6:
+        hash(style)
+    if 0.5 < r < 0.7:
+        style.render("x")
+    return style
+
+
 def routes(rec, rng):
     """[(route name, Style)] - all should denote the style described by rec."""
     Style = _S()
@@ -78,16 +91,16 @@ def routes(rec, rng):
         out.append(("chain", Style.chain(*parts)))
         out.append(("combine", Style.combine(parts)))
         out.append(("null_plus_sum", Style() + acc))
-    out.append(("copy", base.copy()))
+    out.append(("copy", _used(base, rng).copy()))
     # link-updated
     nolink = dict(rec, link=None)
     if rec["link"] is not None or not G.is_null(nolink):
-        out.append(("update_link", G.build(nolink).update_link(rec["link"])))
-        out.append(("update_link_twin", G.build(dict(rec, link="http://other/")).update_link(rec["link"])))
+        out.append(("update_link", _used(G.build(nolink), rng).update_link(rec["link"])))
+        out.append(("update_link_twin", _used(G.build(dict(rec, link="http://other/")), rng).update_link(rec["link"])))
     # colour-stripped twin
     if rec["fg"] is None and rec["bg"] is None:
         twin = dict(rec, fg=("named", "red", 1), bg=("hex", 1, 2, 3))
-        out.append(("without_color", G.build(twin).without_color))
+        out.append(("without_color", _used(G.build(twin), rng).without_color))
     # from_color
     if not rec["attrs"] and rec["link"] is None:
         fg = Color.parse(G.spell(rec["fg"])) if rec["fg"] is not None else None
@@ -121,7 +134,17 @@ def wl_routes(ctx, rng, case_no):
         ctx.hist("route", name)
         _chk_view(ctx, "route-gives-wrong-style:" + name, s, rec, dict(what, route=name))
     _hash_group(ctx, rs, what)
-    # round trips
+    # round trips: the text form of EVERY route's object parses back to an equal style
+    for name, s in rs:
+        ctx.count("mon.roundtrip_str")
+        text = str(s)
+        try:
+            back = Style.parse(text)
+        except Exception as e:
+            ctx.violation("str-does-not-parse:" + name, dict(what, route=name, text=text, error=repr(e)))
+            continue
+        if not (back == s):
+            ctx.violation("str-roundtrip-not-equal:" + name, dict(what, route=name, text=text, back=str(back)))
     base = rs[0][1]
     text = str(base)
     back = Style.parse(text)
